@@ -19,6 +19,8 @@ VARIABLES l, bad
 
 Tag(c, t) == IF c THEN {} ELSE {t}
 Ran(o) == ~o.err /\ ~o.panic
+\* process texts that render a multi-key dict depend on map iteration order (the harness reports them as "UNORDERED")
+SameDetail(x, y) == x = y \/ x = "UNORDERED" \/ y = "UNORDERED"
 
 CheckC03(e) ==
   LET a == e.a
@@ -29,14 +31,42 @@ CheckC03(e) ==
        \cup (IF e.hasB /\ Ran(b)
              THEN Tag(b.rest = "" /\ b.matched = a.matched, "not-closed")
                   \cup Tag(b.ret = a.ret, "value-differs")
-                  \cup Tag(b.detail = a.detail, "detail-differs")
+                  \cup Tag(SameDetail(b.detail, a.detail), "detail-differs")
                   \cup Tag(b.vars = a.vars, "vars-differ")
                   \cup Tag(b.seed = a.seed /\ b.rolls = a.rolls, "rng-differs")
                   \cup Tag(b.st = a.st, "callbacks-differ")
              ELSE {})
        \cup Tag(e.consumedProgram => e.valOK, "prefix-value")
 
+\* c09: variables snapshotted to JSON after a statement prefix (a crash point), restored into a fresh VM with the same
+\* generator state; the remaining statements and follow-up programs run on both VMs
+SameOutcome(x, y) ==
+  /\ x.err = y.err /\ x.panic = y.panic
+  /\ (Ran(x) => (x.ret = y.ret /\ SameDetail(x.detail, y.detail) /\ x.matched = y.matched /\ x.rest = y.rest))
+  /\ x.vars = y.vars /\ x.rolls = y.rolls /\ x.st = y.st
+
+CheckC09(e) ==
+  Tag(~e.snapPanic, "snapshot-crash")
+  \cup (IF e.snapPanic \/ e.snapErr THEN {}          \* an unrepresentable value (cycle, non-finite float) may be refused
+        ELSE Tag(~e.restoreErr, "restore-rejects-own-snapshot")
+             \cup (IF e.restoreErr THEN {}
+                   ELSE Tag(e.varsA = e.varsB, "restored-variables-differ")
+                        \* JSON is a tree: two variables sharing one array/dict come back as two copies (tagged separately)
+                        \cup Tag(Len(e.a) = Len(e.b) /\ \A i \in 1..Len(e.a) : SameOutcome(e.a[i], e.b[i]),
+                                 IF e.aliased THEN "behaviour-differs-after-restore-of-shared-containers" ELSE "behaviour-differs-after-restore")
+                        \cup Tag(\A i \in 1..Len(e.a) : ~e.a[i].panic /\ ~e.b[i].panic, "crash-after-restore")))
+
+\* c09u: a value that JSON cannot represent (reference cycle, non-finite float): serialising it, alone or as part of the
+\* variables, reports an error
+CheckC09u(e) ==
+  IF e.setupErr THEN {}
+  ELSE Tag(~e.valPanic /\ ~e.mapPanic, "serialisation-crash")
+       \cup Tag(e.valErr, "unrepresentable-value-serialised")
+       \cup Tag(e.mapErr, "unrepresentable-variable-serialised")
+
 Check(e) == CASE e.ev = "c03" -> CheckC03(e)
+              [] e.ev = "c09" -> CheckC09(e)
+              [] e.ev = "c09u" -> CheckC09u(e)
               [] OTHER -> {"unknown-event"}
 
 Init == l = 1 /\ bad = <<>>
